@@ -457,6 +457,25 @@ func (g *gen) node(depth int) Node {
 		g.svars = append(g.svars, n.Var)
 	default:
 		n.Kind = rapid.SampledFrom([]string{"style", "script"}).Draw(g.t, "raw")
+		if rapid.IntRange(0, 2).Draw(g.t, "rawAttrs") == 0 {
+			// attributes on raw-text elements: constants and plain expression attributes (a class
+			// expression here is an ordinary string attribute - these elements have no css handling)
+			for i, k := 0, rapid.IntRange(1, 2).Draw(g.t, "nRawAttrs"); i < k; i++ {
+				switch rapid.IntRange(0, 2).Draw(g.t, "rawAttr") {
+				case 0:
+					n.Attrs = append(n.Attrs, Attr{Kind: "const", Name: fmt.Sprintf("data-k%d", i), Val: "v", Quote: `"`})
+				case 1:
+					e := g.strExpr(1)
+					if e.Kind == "orerr" {
+						e = Expr{Kind: "var", Str: "s1"}
+					}
+					n.Attrs = append(n.Attrs, Attr{Kind: "expr", Name: "class", E: &e})
+				default:
+					e := Expr{Kind: "var", Str: "s2"}
+					n.Attrs = append(n.Attrs, Attr{Kind: "expr", Name: fmt.Sprintf("data-v%d", i), E: &e})
+				}
+			}
+		}
 		if n.Kind == "style" {
 			n.Text = rapid.SampledFrom([]string{"", ".a { color: red; }", "\n\t.b > p { margin: 0 }\n\t", "/* é */ .c::after { content: \"x\"; }"}).Draw(g.t, "css")
 			if g.o.BigLiterals && rapid.IntRange(0, 3).Draw(g.t, "big") == 0 {
